@@ -10,7 +10,7 @@ def cfgs(ctx):
     return ["A", "B"] if ctx.tier == "quick" else ["A", "B", "C", "D"]
 
 
-def numeric(ctx, db, path, rules_, weighted=False, pair=False, accessor_args=None, laws=(), extra_contracts=None, e_extra=(), skip=(), only=None):
+def numeric(ctx, db, path, rules_, weighted=False, pair=False, accessor_args=None, laws=(), extra_contracts=None, e_extra=(), skip=(), only=None, mag_max=None):
     """run the shared scenarios of one estimator once and apply the selected numeric-structure rules"""
     import num_rules as N
     e = Est(db, path)
@@ -22,6 +22,8 @@ def numeric(ctx, db, path, rules_, weighted=False, pair=False, accessor_args=Non
         R.r_count(ctx, db, e, db.cfg)
     if "dim" in rules_:
         N.r_dim(ctx, db, e, scen, extra_contracts)
+    if "mag" in rules_ and "dim" in rules_:
+        N.r_mag(ctx, db, e, scen, mag_max)
     if "sign" in rules_:
         N.r_sign(ctx, db, e, scen, weighted=weighted)
     if "div" in rules_:
@@ -67,7 +69,7 @@ def c01(ctx):
                     import num_laws as NL
                     NL.accessor_laws(ctx, db, r[0])
                     kind = t.split("::")[-1]
-                    for k in ((1, 2, 4) if ctx.tier == "quick" else (1, 2, 3, 4, 5, 6)):
+                    for k in ((1, 2, 3, 4) if ctx.tier == "quick" else (1, 2, 3, 4, 5, 6)):
                         NL.stream_definitions(ctx, db, r[0], k, NL.defs_moments(kind), min_k={"sample_variance": 2, "variance_of_mean": 2, "error": 2})
     ctx.floor("Mean/Variance analysed over cfgs", n, 4)
 
@@ -83,7 +85,7 @@ def c03(ctx):
         n += 1
         NL.accessor_laws(ctx, db, r[0])
         kind = t.split("::")[-1]
-        for k in ((2, 4) if ctx.tier == "quick" else (2, 3, 4, 5, 6)):
+        for k in ((2, 3, 4, 5) if ctx.tier == "quick" else (2, 3, 4, 5, 6, 7)):
             NL.stream_definitions(ctx, db, r[0], k, NL.defs_moments(kind), min_k={"sample_variance": 2, "error_mean": 2, "skewness": 2, "kurtosis": 2})
     ctx.floor("Skewness/Kurtosis analysed", n, 2)
 
@@ -105,14 +107,14 @@ def c04(ctx):
         for t, N_ in moment_types(ctx, db):
             if cfg == "A" and t != "m5::M5":
                 continue   # cfg A (serde arm of define_moments_inner!) is the same expansion; one instantiation cross-checks it
-            r = numeric(ctx, db, t, ("count", "dim", "sign", "div", "shift"), accessor_args=moment_args(N_),
+            r = numeric(ctx, db, t, ("count", "dim", "mag", "sign", "div", "shift"), accessor_args=moment_args(N_), mag_max=N_,
                         skip=("sample_skewness", "sample_excess_kurtosis", "sample_variance"),
                         extra_contracts=moment_contracts(N_), laws=("L1", "L2", "L3", "L4") if (N_ <= 6 or ctx.tier == "thorough") else ("L1", "L2", "L3"))
             if not r:
                 continue
             n += 1
             R.r_binom(ctx, db, t, N_)
-            ks = (2, N_ + 1) if ctx.tier == "quick" else tuple(range(2, N_ + 3))
+            ks = (2, 3, N_ + 1) if ctx.tier == "quick" else tuple(range(2, N_ + 3))
             defs = {k_: v for k_, v in NL.defs_moments("Moments", N_).items() if k_ not in ("sample_skewness", "sample_excess_kurtosis", "sample_variance")}
             for k in ks:
                 if ctx.tier == "quick" and N_ >= 8 and k > 6:
@@ -233,6 +235,8 @@ def c11(ctx):
         if e.m("len", None):
             R.r_count(ctx, db, e, "B")
         R.r_derived_clone(ctx, db, e)
+        # "a freshly constructed empty estimator" can also come from Default
+        R.r_default_is_new(ctx, db, e)
     ctx.floor("Merge impls analysed (non-histogram)", n, 11)
     nh = 0
     for t, ln in HIST_TYPES:
@@ -530,7 +534,7 @@ def c10(ctx):
         N.r_dim(ctx, db, e, scen, moment_contracts(4))
         N.r_div(ctx, db, e, scen)
         defs = {k_: v for k_, v in NL.defs_moments("Moments", N_).items() if k_ in ("sample_skewness", "sample_excess_kurtosis", "sample_variance")}
-        for k in ((3, 5) if ctx.tier == "quick" else (2, 3, 4, 5, 6, 7)):
+        for k in ((2, 3, 4, 5) if ctx.tier == "quick" else (2, 3, 4, 5, 6, 7)):
             NL.stream_definitions(ctx, db, e, k, defs, key="L0", min_k={"sample_variance": 2, "sample_skewness": 3, "sample_excess_kurtosis": 4})
         R.r_sentinel(ctx, db, e, "Moments", N=N_, only=("sample_variance", "sample_skewness", "sample_excess_kurtosis"))
         for k in (2, 3):
@@ -609,7 +613,7 @@ def c08(ctx):
         R.r_ident_merge(ctx, db, e)
         FW.r_forward_ingest(ctx, db, e, max_items=2)
         NL.accessor_laws(ctx, db, e)
-        for k in ((1, 3) if ctx.tier == "quick" else (1, 2, 3, 4, 5)):
+        for k in ((1, 2, 3) if ctx.tier == "quick" else (1, 2, 3, 4, 5)):
             NL.stream_definitions(ctx, db, e, k, weighted_defs(kind), arity=2, build_args="weighted",
                                   min_k={"sample_variance": 2, "variance_of_weighted_mean": 2})
     ctx.floor("weighted estimators analysed", n, 2)
@@ -627,7 +631,7 @@ def c09(ctx):
         e, scen = r
         R.r_ident_merge(ctx, db, e)
         FW.r_forward_ingest(ctx, db, e, max_items=2)
-        for k in ((1, 2, 4) if ctx.tier == "quick" else (1, 2, 3, 4, 5)):
+        for k in ((1, 2, 3, 4) if ctx.tier == "quick" else (1, 2, 3, 4, 5)):
             NL.stream_definitions(ctx, db, e, k, cov_defs(), arity=2, build_args="pair",
                                   min_k={"sample_variance_x": 2, "sample_variance_y": 2, "sample_covariance": 2, "pearson": 2})
         NL.cov_swap(ctx, db, e, 3)
@@ -647,6 +651,8 @@ def c17(ctx):
             continue
         n += 1
         scen = N.est_scenarios(ctx, db, e, **kw)
+        # the range clauses presuppose scale-free arithmetic and emptiness tests
+        N.r_dim(ctx, db, e, scen)
         N.r_sign(ctx, db, e, scen, weighted=kw.get("weighted", False))
         if kw.get("pair"):
             N.r_convex(ctx, db, e, scen, N.mean_fields(scen, ("mean_x",)), axis_params=(0,), label="X")
